@@ -36,38 +36,50 @@ assert len(EXPECTED) == 47 and len(set(EXPECTED)) == 47
 
 RULE = (
     "One Hypothesis clause per shared function (47; list = run-time intersection of the public callables of the "
-    "port and of the vendored reference, harness error if it is not the 47 named in the property). Arguments: "
-    "float64 C-contiguous arrays and Python floats/ints only; chains of 1..7 unit revolute (some with pitch) or "
-    "prismatic screws, link frames in SE(3) built without the library (|p|<=2), SPD spatial inertias "
-    "Ad^T diag(Ic,m) Ad with Ic eigenvalues 0.01..5 and m 0.1..50, joint values in [-2pi,2pi] with mass on "
-    "0, 1e-7, 1e-6, pi/2, pi, rates/accelerations |.|<=10, torques |.|<=20, gravity |g|<=20, tip wrenches "
-    "|.|<=20, trajectories N=2..12, method 3/5, Tf log-uniform 1e-2..1e2; matrices within 0.1 of SO(3)/SE(3) "
-    "incl. det<0. Integrated trajectories (ForwardDynamicsTrajectory, SimulateControl) are bounded so that "
-    "(N-1)*intRes*n*(n+3) <= 160 with dt in [1e-3, 2e-2] (cost and numerical conditioning). MatrixLog3/6 take "
-    "rotations of every angle incl. exact half turns and pi-10^-k (same bits in => same branch in both); "
-    "Screw/CartesianTrajectory take Xstart,Xend whose RELATIVE rotation is <= pi-1e-3, because the log of a "
-    "computed product within ~3e-4 of pi amplifies the 1e-16 difference between numpy's and Numba's matrix "
-    "product above 1e-9 (error ~ 1e-16/(pi-theta)^2) although both implementations are equally right. "
-    "Non-trivial: n>=2, or a non-default branch (prismatic joint, some |theta_i|>pi/2, method 5, N>=3, det<0, "
-    "non-zero perturbation), or for the rigid-body functions a rotation angle >= 1e-6 / non-zero argument; "
-    "distinct by digest of the arguments."
+    "port and of the vendored reference, harness error if it is not the 47 named in the property) plus two clauses "
+    "per IK solver. Arguments: float64 C-contiguous arrays and Python floats/ints only; chains of 1..7 unit "
+    "revolute (some with pitch) or prismatic screws, link frames in SE(3) built without the library (identity, "
+    "cube rotations, half turns, quaternions, rotation vectors of every angle; |p|<=2), SPD spatial inertias "
+    "Ad^T diag(Ic,m) Ad with Ic eigenvalues 0.01..5 and m 0.1..50, joint values in [-2pi,2pi] with 12 % on "
+    "0, +-pi/2, +-pi,... and 4 % on/inside the 1e-6 NearZero cut-off, rates/accelerations |.|<=10, torques "
+    "|.|<=20, gravity |g_i|<=12, tip wrenches |.|<=20, trajectories N=2..12, method 3/5, Tf log-uniform "
+    "1e-2..1e2; matrices within 0.1 of SO(3)/SE(3) incl. det<0 and perturbations on both sides of the 1e-3 "
+    "TestIf threshold. Integrated trajectories are bounded by (N-1)*intRes*n*(n+3) <= 160 "
+    "(ForwardDynamicsTrajectory) / 120 (SimulateControl), dt in [1e-3, 2e-2], initial rates <= 3 (cost and "
+    "conditioning of the integration). MatrixLog3/6 take rotations of every angle incl. pi-10^-k and exact half "
+    "turns about axes selecting each sub-branch (same bits in => same branch in both libraries; measured: they "
+    "agree to < 1e-12 there on 40 000 samples at pi-10^-k). Screw/CartesianTrajectory take Xstart,Xend whose "
+    "RELATIVE rotation is <= pi-1e-2: the logarithm of a computed product amplifies the 1e-16 difference between "
+    "numpy's and Numba's matrix product by 1/(pi-theta)^2, which exceeds 1e-9 within ~3e-4 of pi although both "
+    "are equally right (and equally wrong: known finding C01-near-pi-log); pi-1e-2 leaves a factor 1000; IK cases whose START lies within 2e-5 of a half turn from "
+    "the goal are skipped for the same reason. Non-trivial: n>=2, or a non-default branch (prismatic joint, some "
+    "|theta_i|>pi/2, method 5, N>=3, det<0, non-zero perturbation), or for the rigid-body functions a rotation "
+    "angle >= 1e-6 / non-zero argument; IK: a reported success / both solvers converging from a start that is "
+    "not the solution; distinct by digest of the arguments."
 )
 ASSUMPTIONS = [
     "the reference is the vendored, hash-checked modern_robotics 1.1.1 core.py; it defines the domain: arguments "
     "for which it raises ZeroDivisionError/FloatingPointError/LinAlgError/ValueError or returns NaN/inf are skipped "
     "(counted)",
     "agreement: same container kind and length, same array shapes, max|port-ref| <= 1e-9*max(1,max|ref|) per "
-    "returned array (1e-7 for ForwardDynamicsTrajectory and SimulateControl)",
-    "where a rotation angle entering an exponential lies within 1e-9 relative of the library's 1e-6 NearZero "
-    "cut-off the two norms may fall on different sides of it: such cases are compared at 5e-6 (labelled "
-    "'cutoff-straddle'); AxisAng6 there is skipped on mismatch",
-    "a mismatch is only reported where the reference itself is determined to the property's tolerance: if "
-    "perturbing every float argument by 1e-14 relative moves the REFERENCE result by more than the tolerance, the "
-    "case is skipped as ill-conditioned (counted, labelled) -- this test never looks at the port",
+    "returned array (1e-7 for ForwardDynamicsTrajectory and SimulateControl); booleans equal",
+    "the NearZero cut-off is a discontinuity: when a rotation angle entering an exponential lies within 1e-12 "
+    "relative of 1e-6 the two libraries' norm routines may round to different sides of it.  Such a case is first "
+    "compared normally; on mismatch the port must equal, at the same tolerance, the reference evaluated with the "
+    "straddling angles moved to one side or the other by a factor 1+-1e-11 (all <=16 assignments are tried); "
+    "labelled 'cutoff-straddle: same branch / other branch'.  No tolerance is loosened",
+    "TestIfSO3/SE3: a boolean mismatch is skipped only if the reference distance is within 1e-12 of the 1e-3 "
+    "threshold",
+    "ForwardDynamics, ForwardDynamicsTrajectory, SimulateControl (they invert the mass matrix) and the IK "
+    "same-solution clauses: a mismatch is reported only where the reference itself is determined to the tolerance; "
+    "if perturbing its float arguments by 1e-14 (twice, opposite sign patterns, zeros included) moves the REFERENCE "
+    "result by more than the tolerance (1e-7 for IK), the case is skipped as ill-conditioned (counted).  This test "
+    "never looks at the port.  It is deliberately NOT applied to the logarithms, where it would hide wrong branches",
     "IK success is measured with vf/oracle.py (product of exponentials + log in long double / scipy): the angular "
     "and linear parts of the solver's own error twist (body twist for IKinBody, space twist for IKinSpace) must be "
     "<= eomg, ev up to 1e-7*max(1,|p|) for rounding (5e-6*k*max(1,|p|) when k returned joint angles lie in the "
-    "NearZero band, where the library's FK drops the rotation)",
+    "NearZero band 1e-9..2e-6, where the library's FK drops the rotation); eomg, ev in [1e-6, 1e-1]",
+    "IK flags are not required to agree (the property does not say so); the four combinations are labelled",
 ]
 
 VERIF = os.path.dirname(os.path.dirname(os.path.abspath(__file__)))
@@ -583,7 +595,7 @@ NEAR_SE3 = st.tuples(NEAR_SO3, pos_strategy(10.0), st.sampled_from(["exact", "ex
 TF = st.one_of(G.log_uniform(1e-2, 1e2), st.sampled_from([1.0, 2.0, 5.0, 0.5]))
 METHOD = st.sampled_from([3, 5])
 NSAMPLES = st.one_of(st.integers(3, 12), st.integers(2, 12))
-RELMAX = PI - 1e-3
+RELMAX = PI - 1e-2
 
 
 def _relative_from(t):
@@ -602,7 +614,7 @@ def _relative_from(t):
     return {"Xstart": carr(Xs), "Xend": carr(Xe), "rel": kind, "relang": float(np.linalg.norm(w))}
 
 
-# Xstart, Xend in SE(3) whose RELATIVE rotation angle is at most pi-1e-3 (see RULE)
+# Xstart, Xend in SE(3) whose RELATIVE rotation angle is at most pi-1e-2 (see RULE)
 RELATIVE_POSES = st.tuples(FRAME10, st.sampled_from(["generic", "generic", "generic", "same", "pure translation",
                                                      "tiny", "max"]),
                            UNIT, G.floats(1e-3, RELMAX), G.log_uniform(1e-9, 1e-4), pos_strategy(10.0)).map(
